@@ -927,6 +927,23 @@ func c10CallersGuarantee(p *Prog, fn *ssa.Function, par *ssa.Parameter, need int
 		if !good && lenFactAtLeast(e.Site.Block(), a, need) {
 			good = true
 		}
+		if !good && need <= 1 {
+			// the call sits in the body of a range loop over that very slice, which is therefore not empty
+			for _, l := range loopsOf(e.Caller.Func) {
+				// (blocks that leave the loop by returning are not part of the natural loop: go by dominance of the
+				// body entry, which is only reached when index < len held)
+				if len(l.Header.Succs) != 2 || !l.Header.Succs[0].Dominates(e.Site.Block()) || l.Header.Succs[0] == l.Header.Succs[1] || len(l.Header.Succs[0].Preds) != 1 {
+					continue
+				}
+				if iff, ok := lastInstr(l.Header).(*ssa.If); ok {
+					if cmp, ok := iff.Cond.(*ssa.BinOp); ok && cmp.Op == token.LSS {
+						if ln, ok := cmp.Y.(*ssa.Call); ok && isBuiltin(&ln.Call, "len") && ln.Call.Args[0] == a && isFullRangeLoopIdx(l, cmp.X, a) {
+							good = true
+						}
+					}
+				}
+			}
+		}
 		if !good {
 			if cp, ok := a.(*ssa.Parameter); ok {
 				if _, ok2 := c10CallersGuarantee(p, e.Caller.Func, cp, need, depth+1); ok2 {
